@@ -2,10 +2,11 @@
 C12 — frequency filters have the specified zero-phase Butterworth response in Hz.
 
 Tie (every run):
-  design      the arguments `qats.signal.lowpass/highpass/bandpass/bandblock` hand to scipy (`butter` order / Wn / btype /
-              analog, and that the coefficients go once through `filtfilt` resp. `sosfiltfilt` with the caller's signal) are
-              recorded by wrapping the three scipy entry points inside `qats.signal` and compared with the Lean model's
-              `design` (Float, same IEEE operations: 1e-14 relative);
+  design      the arguments `qats.signal.lowpass/highpass/bandpass/bandblock` hand to scipy (`butter` order / Wn (or fc with
+              fs) / btype / analog, and that the coefficients go through exactly one forward-backward pass, `filtfilt` or
+              `sosfiltfilt`) are recorded by wrapping the three scipy entry points inside `qats.signal` and compared with the
+              Lean model's `design` (Float, same IEEE operations: 1e-14 relative).  Padding options, ba-vs-sos form and
+              pre-processing of the signal are irrelevant to the property and only noted;
   steady      the model's `steadyState` (amplitude, frequency, phase, mean of the filtered sinusoid) against the implementation:
               a long sampled sinusoid is filtered, amplitude / phase / mean are least-squares fitted on the central 60 %;
   spec        the model's closed-form gain against an independent statement of "5th-order digital Butterworth, squared
